@@ -69,12 +69,16 @@ def gen_ops(rng, length, nf=NF, p_decl=0.55, modes=True):
     return ops
 
 
+BYVAL = (1, 3)      # functions whose return values are declared with will_return_by_value (see harness/mockvm.c)
+
+
 def to_vm(ops):
     out, line = [], 0
     for o in ops:
         if o[0] in "EAN":
             line += 1
-            cs = " ".join("p%d=%d" % (c[1], c[2]) if c[0] == "p" else "%s%d" % (c[0], c[1]) for c in o[2])
+            cs = " ".join("p%d=%d" % (c[1], c[2]) if c[0] == "p" else
+                          "b%d" % c[1] if c[0] == "r" and o[1] in BYVAL else "%s%d" % (c[0], c[1]) for c in o[2])
             out.append("%s %d %d %s" % (o[0], o[1], line, cs))          # ("s", g) prints as s<g>
         elif o[0] == "C":
             out.append("C %d %s" % (o[1], ",".join("p%d=%d" % a for a in o[2])))
